@@ -625,6 +625,26 @@ func gen(r *hlib.Rand, n int, tier, profile string, emit func(string, ...any)) {
 		if signer == nil {
 			st = "none"
 		}
+		if f.Version == 2 && len(sig) > 0 && r.Chance(1, 30) {
+			// the whole encoding at and around the decoder's MaxCertificateSize: the last group is stretched until the
+			// hand-made encoding of these fields has the length aimed at
+			target := hlib.Pick(r, cert.MaxCertificateSize-1, cert.MaxCertificateSize, cert.MaxCertificateSize+1, cert.MaxCertificateSize+2,
+				cert.MaxCertificateSize+500, 70000, 140000, cert.MaxCertificateSize-300)
+			g := f
+			if signer != nil {
+				g.Issuer, _ = signer.Fingerprint()
+			}
+			pad := 300
+			for k := 0; k < 6; k++ {
+				g.Groups = append(append([]string{}, f.Groups...), strings.Repeat("z", pad))
+				d := target - len(cl.Craft(g, nil, sig))
+				if d == 0 || pad+d < 1 {
+					break
+				}
+				pad += d
+			}
+			f.Groups = g.Groups
+		}
 		emit("issue %s %s %s%s", hlib.Hex(sig), st, f.Desc(), tail)
 		// the same fields hand-encoded without the signer's validation: what the decoders make of inputs
 		// the signer refuses (empty / over-long names, empty groups, duplicate or 4in6 networks, …)
